@@ -231,6 +231,25 @@ def processLine (ln : Nat) (line : String) : M Unit := do
           if good then ok ln
           else bad ln s!"relation_with(constraint): library D{fd} S{fs} I{fi} T{fsat}, set dictates D{b2s dj} S{b2s si} I{b2s inc} T{b2s sat}"
         | _ => skip ln "parse"
+      else if qn == "relcg" then
+        -- args: <modulus> <expr> then 4 flags; the congruence is  expr ≡ 0 (mod modulus)
+        let m := tokInt (rest.getD 0 "")
+        let (e, r') := parseExpr p.n (rest.drop 1)
+        match r' with
+        | [fd, fs, fi, fsat] =>
+          if m == 0 then
+            let hyper := eqRows e.coeffs e.k
+            let (dj, inc, sat) := p.relCon hyper hyper
+            let si := !dj && !inc
+            if (fd == b2s dj) && (fi == b2s inc) && (fs == b2s si) && (fsat == b2s sat) then ok ln
+            else bad ln s!"relation_with(congruence, modulus 0): library D{fd} S{fs} I{fi} T{fsat}, set dictates D{b2s dj} S{b2s si} I{b2s inc} T{b2s sat}"
+          else
+            let (dj, inc) := p.relCongruence e m
+            let si := !dj && !inc
+            -- `saturates` is reported together with inclusion for congruences
+            if (fd == b2s dj) && (fi == b2s inc) && (fs == b2s si) then ok ln
+            else bad ln s!"relation_with(congruence): library D{fd} S{fs} I{fi}, set dictates D{b2s dj} S{b2s si} I{b2s inc}"
+        | _ => skip ln "parse"
       else if qn == "relgen" then
         match parseGen p.n rest with
         | (some g, [a]) =>
